@@ -169,6 +169,9 @@ func (r *rewriter) foreignChan(e ast.Expr) bool {
 	if !ok || fn.Pkg() == nil {
 		return false
 	}
+	if fn.Pkg().Path() == "time" {
+		return false // the time package is replaced by vtime: its channels are modelled ones
+	}
 	return !strings.HasPrefix(fn.Pkg().Path(), "github.com/Trisia/randomness") && !strings.HasPrefix(fn.Pkg().Path(), "verif/")
 }
 
@@ -182,6 +185,7 @@ var importMap = map[string]string{
 	"sync":        "verif/vsched/vsync",
 	"sync/atomic": "verif/vsched/vatomic",
 	"runtime":     "verif/vsched/vruntime",
+	"time":        "verif/vsched/vtime",
 }
 
 func (r *rewriter) file(f *ast.File) {
@@ -671,7 +675,6 @@ var fileOpMap = map[string]string{
 	"os.MkdirAll":         "MkdirAll",
 	"os.Mkdir":            "Mkdir",
 	"os.Exit":             "Exit",
-	"time.Sleep":          "Sleep",
 }
 
 var fileTypeMap = map[string]string{
